@@ -99,6 +99,18 @@ fn drop_thread(spec: &RunSpec, t: usize) -> RunSpec {
     if s.scripts.len() == 1 {
         s.policy = Policy::Seq;
     }
+    if let Some(l) = &mut s.late {
+        if t < l.len() {
+            l.remove(t);
+        }
+        for e in l.iter_mut() {
+            *e = match *e {
+                Some(i) if i == t => None,
+                Some(i) if i > t => Some(i - 1),
+                x => x,
+            };
+        }
+    }
     s.decisions = None;
     s
 }
@@ -172,7 +184,8 @@ pub fn minimise_and_write(
         .collect();
     let original_prefix = prefix.len();
     let mut trials = 0usize;
-    let budget = 260usize;
+    // soak runs take seconds each: fewer trials
+    let budget = if spec.flavor == "s" { 30usize } else { 260usize };
 
     // 1. does it reproduce alone (cold process)?
     let mut last = None;
